@@ -27,8 +27,6 @@ pub struct St { pub valid: bool }
 //@skeleton feos-core/src/state/mod.rs State::new_npt
 //@returns Result<St, SkErr>
 //@params
-//@keep liquid: Result<St, SkErr>
-//@keep vapor: Result<St, SkErr>
 //@event density_iteration free
 //@event new_nvt free
 //@event new_nvt_unchecked free
@@ -38,7 +36,6 @@ pub struct St { pub valid: bool }
 //@skeleton feos-core/src/state/mod.rs State::new_npvx
 //@returns Result<St, SkErr>
 //@params
-//@keep state: St
 //@event new_npt free
 //@event new_nvt free
 //@event new_nvt_unchecked free
